@@ -513,8 +513,9 @@ template <typename Class>
 Class* unwrap_ptr(const mxArray* obj, const string& propertyName) {
 
   mxArray* mxh = mxGetProperty(obj,0, propertyName.c_str());
-  Class* x = reinterpret_cast<Class*> (mxGetData(mxh));
-  return x;
+  // The handle holds a pointer to a heap-allocated shared_ptr (see wrap_shared_ptr).
+  std::shared_ptr<Class>* spp = *reinterpret_cast<std::shared_ptr<Class>**> (mxGetData(mxh));
+  return spp->get();
 }
 
 //// throw an error if unwrap_shared_ptr is attempted for an Eigen Vector
